@@ -240,6 +240,17 @@ impl Semaphore {
     }
 }
 
+#[cfg(all(smol_rs_async_lock_verif, feature = "std"))]
+impl Semaphore {
+    /// Verification hook: `(count, listeners registered on event)`.
+    pub fn verif_state(&self) -> (usize, usize) {
+        (
+            self.count.load(Ordering::SeqCst),
+            self.event.total_listeners(),
+        )
+    }
+}
+
 easy_wrapper! {
     /// The future returned by [`Semaphore::acquire`].
     pub struct Acquire<'a>(AcquireInner<'a> => SemaphoreGuard<'a>);
